@@ -19,7 +19,7 @@ from ..seams.simaddr import SimAddresses
 
 QUERIES = ["symmetric_difference", "false_positives_and_negatives", "weighted_robinson_foulds_distance", "euclidean_distance",
            "find_missing_bipartitions", "Tree.symmetric_difference", "unweighted_robinson_foulds_distance"]
-EDITS = ["rotate", "reseed", "collapse", "resolve", "spr", "set_length", "clear_length", "scale", "encode", "copy", "nni", "nudge_length", "tiny_length", "root_length"]
+EDITS = ["rotate", "reseed", "collapse", "resolve", "spr", "set_length", "clear_length", "scale", "encode", "copy", "nni", "nudge_length", "tiny_length", "root_length", "unifurcation"]
 
 
 def _rel(a, b, tol=1e-9):
@@ -49,7 +49,7 @@ class C04(Machine):
         labs = gen.labels(rng, n, "plain")
         rooted = rng.choice([True, False, None])
         pat = rng.choice(["dyadic", "dyadic", "int", "float", "mixed_none", "none", "mixed_zero"])
-        trees = [gen.tree_spec(rng, labs, rng.choice(["binary", "binary", "poly", "caterpillar", "balanced", "star"]), pat) for _ in range(3)]
+        trees = [gen.tree_spec(rng, labs, rng.choice(["binary", "binary", "poly", "caterpillar", "balanced", "star", "unifurc"]), pat) for _ in range(3)]
         if rng.random() < 0.3:
             trees[1] = trees[0]
         steps = []
@@ -160,7 +160,12 @@ class C04(Machine):
             p = nd._parent_node
             # regraft onto a node outside the pruned subtree that is not the old parent
             sub = set(id(x) for x in rawtree.raw_nodes(_Sub(nd)))
-            targets = [x for x in nodes if id(x) not in sub and x is not p and x._child_nodes]
+            chain = set()
+            q_ = p
+            while q_ is not None and len(q_._child_nodes) == 1:
+                chain.add(id(q_))
+                q_ = q_._parent_node
+            targets = [x for x in nodes if id(x) not in sub and x is not p and x._child_nodes and id(x) not in chain]
             if not targets:
                 return False
             tgt = targets[k2 % len(targets)]
@@ -169,10 +174,12 @@ class C04(Machine):
             p.remove_child(nd)
             tgt.add_child(nd)
             # an emptied or unary parent is cleaned up the way a user would: suppress unifurcations
-            if not p._child_nodes:
-                # p became a leaf without taxon: remove it (and keep the leaf set unchanged)
-                if p._parent_node is not None:
-                    p._parent_node.remove_child(p)
+            # a parent (or a chain of unifurcations above it) left without children would be a leaf without taxon:
+            # remove it, so that the leaf set stays the shared one
+            while not p._child_nodes and p.taxon is None and p._parent_node is not None:
+                q = p._parent_node
+                q.remove_child(p)
+                p = q
             tree.suppress_unifurcations()
             return True
         if kind == "set_length":
@@ -189,6 +196,20 @@ class C04(Machine):
                 e.length = e.length + [8e-6, 2e-6, 1e-7][k2 % 3]
             else:
                 e.length = [1e-6, 5e-6, 1e-8][k2 % 3]
+            return True
+        if kind == "unifurcation":
+            # split an edge by a node of outdegree one (the same tree, drawn with a unifurcation)
+            cands = [nd for nd in nodes if nd._parent_node is not None]
+            nd = cands[k % len(cands)]
+            p = nd._parent_node
+            idx = p._child_nodes.index(nd)
+            p.remove_child(nd)
+            mid = p.insert_new_child(idx)
+            if nd._edge.length is not None:
+                half = nd._edge.length / 2.0
+                mid.edge.length = half
+                nd._edge.length = nd._edge.length - half
+            mid.add_child(nd)
             return True
         if kind == "root_length":
             # the seed edge may carry a length too (e.g. a Newick string ending in "):0.5;")
